@@ -266,23 +266,52 @@ theorem mixed_panic (hf : HashFns H) [BEq H] (data : List UInt8) (st : Store H) 
     obtain ⟨_, _, _, _, h3⟩ := hs
     rcases h3 with ⟨_, h⟩ | ⟨e, _, h⟩ <;> simp [h]
 
+/-! ## validators -/
+
+/-- `valid_ranges`: the two flavours yield the same chunk ranges and the same terminal whenever
+`load` agrees (the recursion touches `load` only) -/
+theorem validRanges_eq (hf : HashFns H) [BEq H] (ob : Store H) (data : List UInt8) (ranges : Ranges)
+    (h : ∀ node, ob.load hf .sync node = ob.load hf .fsm node) :
+    validRanges hf .sync ob data ranges = validRanges hf .fsm ob data ranges :=
+  validRanges_flavour hf ob data ranges h
+
+example : ∀ node, (⟨.preMem, 0, ⟨3000, 0⟩, []⟩ : Store Nat).load toy .sync node
+    = (⟨.preMem, 0, ⟨3000, 0⟩, []⟩ : Store Nat).load toy .fsm node :=
+  fun node => load_flavour_eq_mem toy _ node (.inl rfl)
+
+/-- `valid_outboard_ranges` -/
+theorem validOutboardRanges_eq (hf : HashFns H) [BEq H] (ob : Store H) (ranges : Ranges)
+    (h : ∀ node, ob.load hf .sync node = ob.load hf .fsm node) :
+    validOutboardRanges hf .sync ob ranges = validOutboardRanges hf .fsm ob ranges :=
+  validOutboardRanges_flavour hf ob ranges h
+
+example : ∀ node, (⟨.empty, 0, ⟨3000, 0⟩, []⟩ : Store Nat).load toy .sync node
+    = (⟨.empty, 0, ⟨3000, 0⟩, []⟩ : Store Nat).load toy .fsm node :=
+  fun node => load_flavour_eq_mem toy _ node (.inr (.inr rfl))
+
 /-
 Summary C08.
 PROVED: step_eq, decode_eq, decodeAll_eq (+_fields), decodeRanges_eq (+_fields),
   load_flavour_eq_mem, load_flavour_eq_slot, load_flavour_eq_persisted, load_flavour_counterexample,
   encode_validated_eq (+_of_load, _mem, _empty), plan_empty, encode_plain_eq (+_mem),
-  plain_eq_validated_of_ok, mixed_flatten, mixed_panic.
-PARTIAL: none.
+  plain_eq_validated_of_ok, mixed_flatten, mixed_panic, validRanges_eq, validOutboardRanges_eq.
+PARTIAL: none (but see OPEN: for the io-backed kinds the encoder / validator theorems carry the
+  hypothesis that `load` agrees on the nodes they read).
 OPEN (not stated as theorems):
   -- OPEN: theorem encode_validated_eq_io : st.tree.size ≤ 2^63 → st.tree.outboardSize ≤ st.data.length →
   --   encodeRangesValidated hf .sync data st ranges = encodeRangesValidated hf .fsm data st ranges
   --   missing: every parent node of `prePartialChunks (truncate ranges size) 0` is a persisted node
   --   (`∈ Spec.persistedPre/Post`); with that fact it follows from `encode_validated_eq` and
   --   `load_flavour_eq_persisted`.  It is a property of the plan iterator (PlanPre), not of the codec.
-  -- The validators (`validRanges`, `validOutboardRanges`) take a flavour too; not covered here.
+  -- validRanges_eq / validOutboardRanges_eq ask for agreement of `load` on ALL nodes, which holds for
+  --   the memory kinds and `empty` but never for a finite `preIo` backing (`load_flavour_counterexample`);
+  --   the version restricted to the nodes the recursion visits needs the same missing fact.
 NOTE: agreement of the two decoders holds up to and including the first error.  A client that keeps
   calling `next` after an error sees different stacks (sync popped without pushing the children,
   fsm pushed them), so later steps may differ; `step_eq` states exactly what is shared.
+  Concrete (`toy` hash): `Dec.new 999 ⟨3000,0⟩ [0] (List.replicate 3200 1)`: first call
+  `err (parentHashMismatch 1)` in both; second call: sync `panic` (`stack.pop().unwrap()` on the
+  empty stack), fsm `err (parentHashMismatch 0)`.
 -/
 
 end Bao.C08
